@@ -1,6 +1,6 @@
 \* Exhaustive, quick tier: leader with one follower, log end <= 3, boundaries 1..3, both stores.
-\* Measured: 10,576 distinct states, about 400,000 transitions, depth 9 (about 20 s on an idle machine,
-\* 90 s with the machine at load 50).
+\* Measured: 10,576 distinct states, 333,884 transitions, depth 9 (about 15 s on an idle machine,
+\* 40-70 s with the machine at load 30-50).
 SPECIFICATION Spec
 CONSTANTS
   Followers = {2}
@@ -12,9 +12,9 @@ CONSTANTS
   Trims = {0, 1}
   Limits = {2}
   ReadFroms = {0, 2, 99}
-  ReadMaxs = {0, 2}
+  ReadMaxs = {0}
   SyncStarts = {0, 2}
-  SyncEnds = {0, 3}
+  SyncEnds = {0}
   CapZeroUnbounded = FALSE
   LastUncapped = FALSE
 VIEW View
